@@ -1,4 +1,5 @@
 import Whawty.Model.Store
+import Whawty.Model.StoreHist
 import Whawty.Lemmas.Record
 namespace Whawty.Store
 open Whawty Whawty.Rec
